@@ -517,6 +517,12 @@ func (r *jcRunner) inv(v jcVec) {
 		a.Push(0x200).Op(vm.MSTORE).Push(0x220).Op(vm.MSTORE)
 		a.Op(vm.MSIZE).Push(0x240).Op(vm.MSTORE)
 		a.Push(3).Op(vm.SLOAD).Push(0x260).Op(vm.MSTORE)
+		// every slot a journal instruction was given (variable, parent, packed, string) is read afterwards: were one of them left
+		// warm in the EIP-2929 access list (or otherwise touched), the gas of these reads - and with it the measured fee - would
+		// depend on the instruction, the fork and the state
+		for _, sl := range []uint64{5, 7, 21, 22, 23, 24, 25, 26} {
+			a.Push(sl).Op(vm.SLOAD, vm.POP)
+		}
 		if !v.Static {
 			a.Push(0x77).Push(0x55).Op(vm.SSTORE)
 			a.Push(0x20).Push(0xC0).Op(vm.LOG0)
